@@ -710,6 +710,8 @@ fn malformed(rng: &mut Rng) -> (Vec<u8>, &'static str) {
         5 => (b"*2\r\n$3\r\nget\r\n-$2\r\nkk\r\n".to_vec(), "lookalike"),
         6 => (b"*x\r\n".to_vec(), "bad-array-length"),
         7 => (b"*2\r\n$3\r\nGET\r\n$$1\r\nk\r\n".to_vec(), "lookalike"),
+        // stray separators where a frame must begin: an empty line, a lone LF, a blank, an inline command
+        8 => (rng.pick(&[&b"\r\n"[..], b"\r\n\r\n", b"\n", b" ", b"\r\n\r", b"PING\r\n", b"\r\n?x\r\n"]).to_vec(), "stray-separator"),
         _ => gen_lookalike(rng),
     }
 }
@@ -2315,6 +2317,23 @@ fn fixed_corpus(cx: &mut Cx) {
     check_malformed(cx, &d, &[vec![b"PING".to_vec()]], &bad, "lookalike", &[], &[ping.clone(), bad.clone()], "corpus");
     let bad = b"*3\r\n$3\r\nSET\r\nX$1\r\nk\r\n$9\r\nv".to_vec();
     check_malformed(cx, &d, &[vec![b"PING".to_vec()]], &bad, "lookalike", &[], &[ping.clone(), bad.clone()], "corpus");
+    // stray separators between commands are malformed frames: an error reply, never silence — alone after a
+    // command, between two commands of one read, and cut between CR and LF
+    for junk in [&b"\r\n"[..], b"\r\n\r\n", b"\n", b"\r\n\r"] {
+        let mut s = ping.clone();
+        s.extend_from_slice(junk);
+        check_malformed(cx, &d, &[vec![b"PING".to_vec()]], junk, "stray-separator", &[], &[s.clone()], "corpus");
+        check_malformed(cx, &d, &[vec![b"PING".to_vec()]], junk, "stray-separator", &[], &[ping.clone(), junk.to_vec()], "corpus");
+        if junk.len() >= 2 {
+            let mut a = ping.clone();
+            a.extend_from_slice(&junk[..1]);
+            check_malformed(cx, &d, &[vec![b"PING".to_vec()]], junk, "stray-separator", &[], &[a, junk[1..].to_vec()], "corpus");
+        }
+        let mut t = s.clone();
+        t.extend_from_slice(&ping);
+        corr_only(cx, &d, &[t], "corpus:stray-separator-then-command-same-read");
+        corr_only(cx, &d, &[s.clone(), ping.clone()], "corpus:stray-separator-then-command-next-read");
+    }
     // W3: wrapping length arithmetic in the recognisers
     let bad = b"*2\r\n$3\r\nGET\r\nX$18446744073709551615\r\nab".to_vec();
     check_malformed(cx, &d, &[], &bad, "huge-key-length", &[], &[bad.clone()], "corpus");
